@@ -349,6 +349,26 @@ def extract(repo=None, units=None, config_edits=None, extra_flags=None, srcdir=N
     return Program(loaded, flags + extra, config_edits or {})
 
 
+def extract_file(path, repo=None, config_edits=None, extra_flags=None):
+    """Extract one out-of-tree unit (a generated probe) with the real build flags; returns a Unit."""
+    repo = repo or REPO
+    if not os.path.exists(PLUGIN):
+        raise AnalysisBroken("plugin %s not built (run setup)" % PLUGIN)
+    flags, _ = build_settings(repo)
+    scratch = scratch_dir()
+    extra = list(extra_flags or [])
+    if config_edits:
+        extra = ["-I" + make_config_dir(scratch, repo, config_edits)] + extra
+    out = os.path.join(scratch, "probe.json")
+    unit, rc, txt = _run_plugin((os.path.join(repo, "src"), path, flags, out, extra))
+    if rc != 0:
+        raise AnalysisBroken("clang failed on probe %s: %s" % (path, txt[-3000:]))
+    with open(out) as fh:
+        u = Unit(os.path.basename(path), json.load(fh), os.path.join(repo, "src"))
+    os.unlink(out)
+    return u
+
+
 def clang_diagnostics(repo=None, warn_flags=(), units=None):
     """Run clang -fsyntax-only with the given -W flags; returns [(unit, file, line, col, flag, msg)]."""
     repo = repo or REPO
